@@ -40,14 +40,21 @@ for k in sorted(os.listdir(out)):
         sh('git checkout -q -- . ; git clean -fdq -e _out -e target')
         os.makedirs(tdir, exist_ok=True)
         shutil.copy(os.path.join(d, 'demo.rs'), tpath)
-        rc_a, o_a = sh('cargo test --offline -p %s --test %s' % (pkg, tname))
+        mrun = re.search(r'run:\s*(.*)$', first)
+        demo_cmd = 'cargo test --offline -p %s --test %s' % (pkg, tname)
+        if mrun and ('RUSTFLAGS' in mrun.group(1) or '--features' in mrun.group(1)
+                     or '--no-default-features' in mrun.group(1)):
+            # configuration-specific demo (C19): keep the flags, substitute our test name
+            demo_cmd = re.sub(r'--test\s+\S+', '--test ' + tname, mrun.group(1).strip())
+            meta['demo_cmd'] = demo_cmd
+        rc_a, o_a = sh(demo_cmd)
         meta['a_clean_demo_passes'] = rc_a == 0
         rc, o = sh('git apply %s' % os.path.join(d, 'patch.diff'))
         meta['patch_applies'] = rc == 0
         if rc != 0:
             meta['apply_output'] = o[-500:]
         else:
-            rc_c, o_c = sh('cargo test --offline -p %s --test %s' % (pkg, tname))
+            rc_c, o_c = sh(demo_cmd)
             meta['c_patched_demo_fails'] = rc_c != 0 and 'test result: FAILED' in o_c
             os.remove(tpath)
             rc_b, o_b = sh('cargo test --offline --workspace --no-fail-fast')
